@@ -174,6 +174,8 @@ type Run struct {
 	cur        int32
 	lastProg   int64
 	starveLeft int
+	idleShort  bool // waiting briefly for tasks blocked outside the simulator before treating the run as quiescent
+	graceOver  bool
 	running    bool // some task holds the processor
 	Unstable   bool // a task blocked outside the simulator: the execution is not exactly repeatable
 	stepsA     int64 // atomic mirror of St.Steps for the monitor
@@ -186,6 +188,9 @@ type Run struct {
 	OnEvent   func(r *Run, e *Event)
 	AfterStep func(r *Run)
 	Handler   func(r *Run, task int32, a, b, c, d int64) int64
+	// OnQuiescent is asked when nobody can move and only hold gates are closed; it may open gates
+	// (returning true) before the scheduler falls back to opening the oldest hold gate itself
+	OnQuiescent func(r *Run) bool
 
 	// task-side (serial, accessed only in norace code)
 	nextTask      int32
@@ -411,13 +416,27 @@ func (r *Run) loop() {
 			m = <-r.in
 		} else {
 			// nobody holds the processor: every live task is blocked outside the simulator
+			wait := 3 * time.Second
+			if r.idleShort {
+				wait = 150 * time.Millisecond
+			}
+			timedOut := false
 			select {
 			case m = <-r.in:
-			case <-time.After(3 * time.Second):
+			case <-time.After(wait):
+				timedOut = true
+			}
+			if timedOut {
+				if r.idleShort {
+					// the tasks blocked outside the simulator had their moment: now treat the situation as quiescent
+					r.idleShort, r.graceOver = false, true
+					if r.scheduleNext() {
+						break
+					}
+					continue
+				}
 				r.finish(EndDeadlock, "every live task is blocked in a primitive outside the simulator: "+r.describeBlocked())
-				raceEnable()
-				close(r.done)
-				return
+				break
 			}
 		}
 		if r.step(m) {
@@ -488,12 +507,10 @@ func (r *Run) step(m msg) bool {
 		r.tasks[m.t].wait = waitExternal
 		r.running = false
 		atomic.StoreInt32(&r.curA, -1)
-		if next, _ := r.pick(); next >= 0 {
-			r.resume(next)
-		}
-		return false
+		return r.scheduleNext()
 	}
 	r.St.Steps++
+	r.idleShort, r.graceOver = false, false
 	atomic.StoreInt64(&r.stepsA, r.St.Steps)
 	t := m.t
 	late := !(r.running && t == r.cur) // a task that had been blocked outside the simulator reports back
@@ -611,13 +628,33 @@ func (r *Run) step(m msg) bool {
 			r.lastProg = r.St.Steps
 		}
 	}
+	return r.scheduleNext()
+}
+
+// scheduleNext gives the processor to the next task; when nobody can move it opens gates
+// (quiescence rule: ordinary gates first, then the controller's say, then hold gates), waits for
+// tasks blocked outside the simulator, or ends the run.
+func (r *Run) scheduleNext() bool {
 	next, live := r.pick()
 	for next < 0 {
 		if live == 0 {
 			return r.finish(EndOK, "")
 		}
-		// quiescence: nobody can move; open the oldest closed gate somebody waits on
-		g, ok := r.oldestGate(false)
+		g, ok := r.oldestGate(true) // ordinary gates first
+		if !ok && r.anyExternal() && !r.graceOver {
+			// somebody is blocked in a channel / condition / sleep and may be about to come back: this is
+			// not quiescence yet
+			r.idleShort = true
+			atomic.StoreInt32(&r.curA, -1)
+			return false
+		}
+		if !ok {
+			if r.OnQuiescent != nil && r.OnQuiescent(r) {
+				next, live = r.pick()
+				continue
+			}
+			g, ok = r.oldestGate(false)
+		}
 		if !ok {
 			if r.anyExternal() {
 				atomic.StoreInt32(&r.curA, -1)
